@@ -743,6 +743,9 @@ func c10SlotKeys(targets []int) []string {
 		func(n int) string { return fmt.Sprintf("x{t%d}y{z}w}", n) },     // tag in the middle, later pair and stray brace
 		func(n int) string { return fmt.Sprintf("{}{q%d}", n) },          // empty first tag: whole key hashed
 		func(n int) string { return fmt.Sprintf("\xff{\xfe%d}\x00", n) }, // binary bytes around and inside the tag
+		func(n int) string { return fmt.Sprintf("a}b{t%d}c", n) },          // a closing brace in front of the first opening one
+		func(n int) string { return fmt.Sprintf("{{t%d}}", n) },            // nested: the tag starts with a brace
+		func(n int) string { return fmt.Sprintf("{t%d", n) },               // unclosed: whole key hashed
 	}
 	var out []string
 	for _, form := range forms {
